@@ -19,6 +19,10 @@ CHECKS = {
   text="Differential over schedules: each generated multi-link erroneous input is executed K times on the hook-enabled CLI under seeded schedule perturbation at every channel hand-off (slow validators / collector / dispatcher, random yields and sleeps); error messages and their order, report, statistics file bytes and exit status must be identical across runs. The number of distinct pre-sort arrival orders actually reached is measured with the trace hook and only cases with >= 2 count as non-trivial.",
   note="Trusted base: the perturbation hook (feature `verif`) only adds sleeps/yields; schedules are sampled, not enumerated, so a race outside the perturbed hand-offs can be missed (DESIGN.md section 7).",
   technique="property-based testing with fault/schedule injection: metamorphic relation (same input, different schedules => identical observables), schedule diversity measured by trace hook"),
+ "C06": dict(
+  text="Metamorphic / differential testing of per-link isolation: for generated multi-link streams (conforming and corrupted) in four interleavings, the error list of the full multi-threaded CLI run must equal the offset-merge of one in-process sequential pass per link (per FEE ID in stave mode) over that link's packets alone with their true offsets; the same holds for --filter-link / --filter-fee / --filter-its-stave runs and for the physically extracted single-link file, and the findings normalised to (packet index, inner offset) are identical across interleavings and between a link stored alone and interleaved.",
+  note="Trusted base: the in-process sequential pass uses the library's own validator (the property's last clause defines exactly this comparison); independent walker for grouping and offset normalisation; exclusions: a link's first RDH0 / framing uncorrupted, layout agrees with format, interleavings whose first packet fails the documented pre-check are skipped (counted).",
+  technique="property-based testing: metamorphic relations over interleavings + differential CLI (multi-threaded dispatch) vs single sequential pass"),
  "C07": dict(
   text="Round-trip oracle against the input: for generated well-framed streams with arbitrary/corrupted word-structured payloads, every error message's leading offset must be an RDH start or word start of the independently walked chain, quoted 10-byte dumps must equal the input bytes at that offset, `current :` RDH rows must equal an independent decode, frame messages must end on a TDT; all five check modes, all filter kinds, muted and unmuted, stderr and statistics file.",
   note="Trusted base: independent chain walker and word-offset arithmetic; domain restricted (by the statement) to payload layouts that agree with the header's data format.",
